@@ -100,6 +100,15 @@ void unary_ops() {
   mv = std::move(cp);
   Spline<T, A> e{a.getSupport().getGrid()};
   Spline<T, A> f{a.getSupport(), a.getCoefficients()};
+  // scalar forms on expiring objects: bind to the const& / const overloads on the reference tree; overloads for rvalues
+  // (&&-qualified members, operator*(const T&, Spline&&)) added later are selected - and analysed - here
+  {
+    Spline<T, A> x1(a), x2(a), x3(a), x4(a);
+    (void)(std::move(x1) * c);
+    (void)(std::move(x2) / c);
+    (void)(-std::move(x3));
+    (void)(c * std::move(x4));
+  }
 
   // primitive operators, n below / at / above the order
   apply_op(IdentityOperator{}, a);
